@@ -6,6 +6,7 @@ CFG = {
         'bitstr.Cmp': 'bitstr.Cmp(bitstr.New(s1,f1,t1), bitstr.New(s2,f2,t2))',
         'bitstr.CmpUpto': 'bitstr.CmpUpto(a, bitstr.New(s,from,to)) + inputs unchanged',
         'bitstr.StrCmpUpto': 'bitstr.StrCmpUpto(string(a), e) and bitstr.CmpUpto(a, e), e = bitstr.New(s,from,to), + inputs unchanged',
+        'bitstr.New/decode': 'bitstr.New (its output must be a well-formed encoding that decodes to the bits of the range)',
         'bitstr.CmpUpto/viaNew': 'bitstr.CmpUpto(a, e) and bitstr.Cmp(bitstr.New(a, 0, min(8*len(a), bitstr.Len(e))), e), e = bitstr.New(s,from,to)',
         'bitstr.CmpUpto/sorted': '[bitstr.CmpUpto(k, e) for k in keys], keys sorted by bytes.Compare, e = bitstr.New(s,from,to): spec values and non-decreasing'},
  'rule': 'bit strings are always given as (s, from, to) and encoded by the real New. cases = corpus + exhaustive sweeps (New and '
